@@ -216,11 +216,50 @@ Fifth round (changes 12-14; the sub-agents were told the titles of the eleven ea
 | C20-13 | silent | C20: the chain starts in the initialiser of a package variable that follows a method declaration, or in an Eval that declares a method ahead of the call (outermost entry without a function name) |
 | C20-14 | silent | C20: one case in six uses \\r\\n line endings |
 
+Sixth round (changes 15-16, two per property; the authors had the titles of all fourteen earlier ones). Two of
+the 40 are not stored: C02-16 and C12-15 stopped being observable through their demonstrations once the
+defects their authors had stumbled over were repaired in /repo (F53: inside a method the receiver lost its
+declared type; the repair moved the code C12-15 had changed out of the script's path, and made C02-16's fast
+path equivalent to the ordinary one). Because the authors' summaries arrive before their changes can be run,
+five checks were widened from the summaries alone (C04-15 absent keys of maps whose key type differs from the
+element type; C06-15 a package variable as switch tag that case expressions change; C06-16 negated && / ||
+groups ending in == or !=; C20-15 spread calls in the chain; C20-16 compound shift assignments as faults) and
+then reported their changes at the first run; those five are counted as missed below, since the checks as
+they stood would not have seen them. Caught outright: C01-15, C04-16, C05-15/16, C10-15/16, C11-15/16,
+C12-16, C13-16, C17-16. Missed at first (21 stored + 5 pre-empted of 38 stored):
+
+| change | first result | what was added |
+|---|---|---|
+| C01-16 | silent | generator: strconv.FormatFloat with bit size 32 and more precisions; string literals with invalid UTF-8 |
+| C02-15 | silent | C02 operator tables: integer literals next to float64 operands (x + 0, x - 0, x * 1); this met F55 on the unchanged tree (x - 0 fused into an addition of +0) |
+| C03-15 | every check ended with exit 2: the harness itself enumerates opcode names at start-up and the changed name table panics for the pseudo-opcodes | the enumeration recovers; C03 then reports the change through WithCodeDump on a stray break / continue |
+| C03-16 | silent | C03 trees: import paths spelled relative to the importing directory (./x, ../x) inside cycles |
+| C07-15 | silent (C09 had reported the same change in round 5) | generator: return f(xs...) forwarding to variadic callees; C07 snippet with spread calls in every call position |
+| C07-16 | silent | generator: a variable assigned to itself plus and minus several constants; C07 snippet with such statements at every nesting |
+| C08-15 | silent | C08: constants declared in if / for / switch-clause blocks under the name of an outer variable |
+| C09-15 | C09 silent (C01, C07 reported it; C01-12 was the same change) | C09: the callee as the post statement of a for loop ahead of a forwarding return |
+| C09-16 | silent | C09: one []any argument for a ...any parameter, next to the spread form |
+| C13-15 | silent | C13: control characters written as they are inside interpreted and character literals |
+| C14-15, C14-16 | silent | C14 kind "derived": values that script operations derive from host-supplied ones (whole-range slice expressions, maps.Clone, maps.Keys, slices.Delete), nested two and three containers deep |
+| C15-15 | silent | C15: packages whose import path lies below another package's path (the parent's full-path directory then holds only the sub-package) |
+| C15-16 | silent | C15: one graph in sixty has 60-80 packages, all reachable |
+| C16-15 | silent | C16: variables of function type without an initialiser (one without results) in the spine |
+| C16-16 | silent | C16 file names that contain _test without being test files (ab_testing.go, x_testdata.go) |
+| C17-15 | silent | C17: a struct type declared inside a function whose fields differ from version to version, used before and after every load |
+| C18-15 | silent | C18: two independent packages, one importing a third under an alias, the other using that alias's name for a variable of its own |
+| C18-16 | silent | C18: one program in four begins with its package clause |
+| C19-15 | silent (C09 had reported the same change in round 5) | C19 runs the host-call histories of C09 as a kind of its own |
+| C19-16 | silent | C19: natives registered under package-level names that are also predeclared (print, println) |
+| C04-15, C06-15, C06-16, C20-15, C20-16 | (pre-empted, see above) | |
+
+Two more defects of the unchanged tree came out of this round: F53 and F54 (an any-typed operand holding a
+scalar compared with nil), both first noticed by sub-agents while writing their demonstrations.
+
 A reverse-of-fix mutant of F52 (blank parameters) was also found to be reported by C01 only; C09's
 generated callees now spell unused parameters _ now and then.
 
 While these inputs were added, the strengthened checks met more genuine defects of the pinned tree
-(F44-F52 and K05-K08 in known_findings.json), among them two the C03 sub-agent had noticed on the
+(F44-F55 and K05-K08 in known_findings.json), among them two the C03 sub-agent had noticed on the
 unchanged tree while looking for places to plant its changes.
 """)
 print(open('/verif/seeded/RESULTS.md').read())
